@@ -35,7 +35,7 @@ pub fn def() -> CheckDef {
         runs: |t| if t.thorough() { 300_000 } else { 15_000 },
         run,
         execute,
-        expected_probes: &["name_below_slash", "name_above_slash", "multibyte_name", "extension_siblings", "triples_checked", "invalid_strings_checked", "multi_hunk_band"],
+        expected_probes: &["name_below_slash", "name_above_slash", "multibyte_name", "extension_siblings", "triples_checked", "invalid_strings_checked", "multi_hunk_band", "more_than_10000_hunks_listed"],
     }
 }
 
@@ -74,7 +74,13 @@ fn generate(seed: u64, tier: Tier) -> Scenario {
 }
 
 fn run(seed: u64, tier: Tier, acc: &mut Acc) -> Vec<Found> {
-    let sc = generate(seed, tier);
+    // one seed in 1 500: an index of more than 10 000 hunks (two index subdirectories), listed
+    let sc = if seed % 1500 == 11 {
+        acc.hit("more_than_10000_hunks_listed");
+        crate::scenario::many_hunks("C11", seed)
+    } else {
+        generate(seed, tier)
+    };
     match execute(&sc, acc) {
         Ok(vs) => {
             acc.sample(sc.compact());
